@@ -828,10 +828,45 @@ func (t *tr) call(c *ast.CallExpr, stmt bool) ([]string, []T) {
 			}
 			if len(c.Args) >= 2 {
 				if tv, ok := t.p.info.Types[c.Args[1]]; !ok || tv.Value == nil || tv.Value.ExactString() != "0" {
+					// make([]T, n): n zero values (a list of opaque elements only; capacity is not modelled)
+					if len(c.Args) == 2 && strings.HasPrefix(ty.Lean, "List ") {
+						n, _ := t.expr(c.Args[1])
+						return []string{"(List.replicate (" + n + ").toNat default)"}, []T{ty}
+					}
 					t.fail(c, "make with a non-zero length")
 				}
 			}
 			return []string{"[]"}, []T{ty}
+		case "copy":
+			// copy(dst, src) / copy(dst[k:], src) as a statement: the first min(len) elements are overwritten
+			src, _ := t.expr(c.Args[1])
+			switch d := c.Args[0].(type) {
+			case *ast.Ident:
+				l, ok := t.lookup(d.Name)
+				if !ok {
+					t.fail(c, "copy into %s", d.Name)
+				}
+				t.emit("%s := GoRt.copyInto %s %s", l, l, src)
+				return []string{"(0 : Int)"}, []T{tInt}
+			case *ast.SliceExpr:
+				id, ok := d.X.(*ast.Ident)
+				if !ok || d.Low == nil || d.High != nil || d.Max != nil {
+					t.fail(c, "copy into %s", t.p.text(d))
+				}
+				l, ok := t.lookup(id.Name)
+				if !ok {
+					t.fail(c, "copy into %s", id.Name)
+				}
+				k, _ := t.expr(d.Low)
+				if !t.mayPanic {
+					t.fail(c, "slice expression in a function classified as non-panicking")
+				}
+				t.emit("if (decide (%s < (0 : Int))) || (decide (%s > (%s.length : Int))) then", k, k, l)
+				t.emit("  throw Panic.index")
+				t.emit("%s := GoRt.copyIntoAt %s (%s).toNat %s", l, l, k, src)
+				return []string{"(0 : Int)"}, []T{tInt}
+			}
+			t.fail(c, "copy into %s", t.p.text(c.Args[0]))
 		case "delete":
 			ext := t.findExt("delete(" + calleeText(t.p, c.Args[0], t.recvName) + ")")
 			if ext == nil || ext.Effect == "" {
@@ -961,14 +996,40 @@ func (t *tr) call(c *ast.CallExpr, stmt bool) ([]string, []T) {
 		if recvExpr != nil && !fi.spec.NoRecv {
 			base, s, ok := t.lvalStruct(recvExpr)
 			if !ok {
+				// a method called on the result of a call (`r.Add(…).Use(…)`): the result is held in a temporary, which
+				// the method updates (that the result is a POINTER others may hold too is not expressed by the translation)
+				if ce, isCall := recvExpr.(*ast.CallExpr); isCall {
+					v, _ := t.expr(ce)
+					tmp := t.fresh()
+					t.emit("let mut %s := %s", tmp, v)
+					base, s, ok = tmp, func(x string) string { return tmp + " := " + x }, true
+				}
+			}
+			if !ok {
 				t.fail(c, "receiver expression %s", t.p.text(recvExpr))
 			}
 			args = append(args, base)
 			set = s
 		}
-		for _, a := range c.Args {
+		nfixed := len(c.Args)
+		if sig, ok := t.typeOf(c.Fun).(*types.Signature); ok && sig.Variadic() && !c.Ellipsis.IsValid() {
+			nfixed = sig.Params().Len() - 1
+		}
+		var rest []string
+		for i, a := range c.Args {
 			s, _ := t.expr(a)
-			args = append(args, s)
+			if i < nfixed {
+				args = append(args, s)
+			} else {
+				rest = append(rest, s)
+			}
+		}
+		if nfixed < len(c.Args) || (nfixed == len(c.Args) && func() bool {
+			sig, ok := t.typeOf(c.Fun).(*types.Signature)
+			return ok && sig.Variadic() && !c.Ellipsis.IsValid()
+		}()) {
+			// individual arguments for a variadic parameter: the list of them
+			args = append(args, "["+strings.Join(rest, ", ")+"]")
 		}
 		// the callee's explicit extra parameters: the caller passes its own parameters of the same names on
 		for _, e := range fi.spec.Extra {
